@@ -515,3 +515,28 @@ package tcp
 //@   requires seg.ackNumber - s.sndUna >= 1 && seg.ackNumber - s.sndUna <= s.sndNxt - s.sndUna && seqnum.Size(seg.ackNumber - s.sndUna) < s.writeList.head.logicalLen()
 //@   at_call sendData requires s.sndUna == old(seg.ackNumber) && s.writeList.head == old(s.writeList.head) && s.writeList.head.sequenceNumber == s.sndUna
 //@   modifies everything(), modset(NETGHOSTS)
+
+// ---------------------------------------------------------------------------
+// C03 (SYN-cookie mode): the value recovered from a final ACK is exactly the 24 low bits of
+// cookie - H0 - seq - H1(ts), with ts the cookie's own 8-bit timestamp - every bit of the
+// acknowledgement number below the timestamp takes part. cookieHash (SHA-1 over the
+// identifier, a timestamp and a per-listener nonce) is ASSUMED to be a function of its
+// arguments; it is not interpreted.
+//@ func (*listenContext).cookieHash props C03
+//@   trusted
+//@   pure
+//@ func timeStamp props C03
+//@   trusted
+//@ define cookieV(l, id, cookie, seq) = uint32(cookie) - l.cookieHash(id, 0, 0) - uint32(seq)
+//@ func (*listenContext).isCookieValid props C03
+//@   requires l != nil
+//@   ensures implies(result2, result1 == (cookieV(l, id, cookie, seq) - l.cookieHash(id, cookieV(l, id, cookie, seq) >> tsOffset, 1)) & hashMask)
+//@   ensures implies(!result2, result1 == 0)
+
+// Round trip: what createCookie packs for (seq, data) at timestamp ts is what isCookieValid's
+// formula recovers, for all hash values h0, h1.
+//@ lemma cookie_roundtrip props C03
+//@   var h0, h1, seq, ts, data uint32
+//@   assume ts <= tsMask
+//@   prove (h0 + seq + (ts << tsOffset) + ((h1 + data) & hashMask) - h0 - seq) >> tsOffset == ts
+//@   prove ((h0 + seq + (ts << tsOffset) + ((h1 + data) & hashMask) - h0 - seq) - h1) & hashMask == data & hashMask
